@@ -13,7 +13,36 @@ pub struct WbStats { pub nontrivial: u64, pub samples: Vec<String>, pub meta: se
 /// stops the history at its first occurrence)
 pub const RECORDED: &[&str] = &[
     "xlsx:row-attributes-without-cells", "xlsx:sheet-color-not-exported", "xlsx:implicit-intersection-added",
+    "xlsx:unparsable-formula-reinterpreted", "xlsx:orphan-spill-cell-becomes-value", "xlsx:export-panic-dangling-name-scope",
 ];
+
+fn rc_of(key: &str) -> (i32, i32) {
+    // "s0 cell R8C5"
+    let w = key.split(' ').nth(2).unwrap_or("R0C0");
+    let mut it = w[1..].split('C');
+    (it.next().unwrap_or("0").parse().unwrap_or(0), it.next().unwrap_or("0").parse().unwrap_or(0))
+}
+
+/// a spill cell whose anchor is not an array formula that covers it
+fn is_orphan_spill(ws: &ironcalc_base::types::Worksheet, row: i32, col: i32) -> bool {
+    use ironcalc_base::types::Cell;
+    match ws.cell(row, col) {
+        Some(Cell::SpillCell { a, .. }) => match ws.cell(a.0, a.1) {
+            Some(Cell::ArrayFormula { r, .. }) => !(a.0 <= row && row < a.0 + r.1 && a.1 <= col && col < a.1 + r.0),
+            _ => true,
+        },
+        _ => false,
+    }
+}
+
+pub fn classify_panic(orig: &Model, msg: &str) -> String {
+    let wb = &orig.workbook;
+    if wb.defined_names.iter().any(|d| match d.sheet_id { Some(id) => !wb.worksheets.iter().any(|w| w.sheet_id == id), None => false }) {
+        return "xlsx:export-panic-dangling-name-scope".into();
+    }
+    if msg.contains("evaluated before saving") { return "xlsx:export-panic-unevaluated".into(); }
+    "xlsx:export-panic".into()
+}
 
 fn sheet_of(key: &str) -> usize { key.split(' ').next().unwrap_or("s0")[1..].parse().unwrap_or(0) }
 fn field<'a>(l: &'a str, name: &str) -> &'a str {
@@ -40,6 +69,15 @@ pub fn classify(orig: &Model, d: &Diff) -> String {
         }
         ("cell", Some(b), Some(a)) => {
             let (wb_, wa) = (cell_words(b), cell_words(a));
+            let (row, col) = rc_of(&d.key);
+            if let Some(w) = ws {
+                if is_orphan_spill(w, row, col) && wb_.get(3) == Some(&"spill") && wa.get(3) != Some(&"spill") && style_part(b) == style_part(a) { return "xlsx:orphan-spill-cell-becomes-value".into(); }
+                if let Some(ironcalc_base::types::Cell::CellFormula { f, .. }) | Some(ironcalc_base::types::Cell::ArrayFormula { f, .. }) = w.cell(row, col) {
+                    if let Some((ironcalc_base::expressions::parser::Node::ParseErrorKind { .. }, _)) = orig.parsed_formulas.get(si).and_then(|v| v.get(*f as usize)) {
+                        if style_part(b) == style_part(a) { return "xlsx:unparsable-formula-reinterpreted".into(); }
+                    }
+                }
+            }
             if style_part(b) == style_part(a) && wb_.len() == wa.len() && wb_.len() > 4 && (wb_[3] == "formula" || wb_[3] == "array") {
                 let same_but_formula = wb_.iter().zip(wa.iter()).enumerate().all(|(i, (x, y))| i == 4 || x == y);
                 if same_but_formula && wa[4].replace('@', "") == wb_[4].replace('@', "") && wa[4].matches('@').count() > wb_[4].matches('@').count() {
@@ -77,7 +115,7 @@ pub fn check_model(m: &Model) -> Result<usize, Vec<(String, String)>> {
             }
             Err(out)
         }
-        Trip::ExportPanic(e) => Err(vec![("xlsx:export-panic".into(), e)]),
+        Trip::ExportPanic(e) => Err(vec![(classify_panic(m, &e), e)]),
         Trip::ExportErr(e) => Err(vec![("xlsx:export-error".into(), e)]),
         Trip::ImportErr(e) => Err(vec![("xlsx:import-error".into(), e)]),
         Trip::ImportPanic(e) => Err(vec![("xlsx:import-panic".into(), e)]),
